@@ -459,7 +459,7 @@ def obs_impl(o):
         outcome = (oc,)
     return {"outcome": outcome, "trace": o.get("trace") or [], "stderr": norm_stderr(o.get("stderr") or []),
             "values": o.get("values") or {}, "sbu": o.get("sbu") or {}, "logs": o.get("logs") or {},
-            "errline": o.get("errline")}
+            "errline": o.get("errline"), "stdout": o.get("stdout") or []}
 
 
 def obs_model(m):
